@@ -11,6 +11,11 @@ doctor_plan, doctor, doctor_apply and the read APIs):
               that sizes an allocation (vec![0; n], Vec::with_capacity, resize, reserve) must be bounded first: a
               dominating comparison of that very quantity with a constant or with the file length, a clamp (min), or
               the success of a local validator that performs such a comparison on the same struct.
+  SUB-C22c    an unsigned subtraction `a - b` whose subtrahend is read from the file (size/offset field of a decoded
+              structure, or from_le_bytes of bytes read) underflows on a crafted value - a panic in debug builds, a
+              wrapped offset and an out-of-range slice in release builds. It must be dominated by an edge on which
+              b <= a holds *for that a* (a comparison whose one side derives from b and whose other side derives from
+              a), or b must be clamped by min() first. A guard against a different quantity does not count.
 Not decided: panic-freedom of index/arithmetic sites in general, termination."""
 from . import lib
 from .facts import Place, op_place
@@ -137,3 +142,41 @@ def run(ctx):
                 ctx.bad('ALLOC-C22b', f, '%s is sized by %s, read from the file, with no bound against a constant or the file length on its path: a crafted size field aborts the process'
                         % (c.name, src), line=c.line, sink=c.name, detail='unbounded-alloc:' + key[1])
     ctx.floor('ALLOC-C22b', n_alloc, 8, 'allocations sized by file-derived integers')
+    # ---- subtractions
+    ctx.rule('SUB-C22c', 'unsigned a - b with file-derived b is dominated by a b <= a edge for the same a, or b is clamped with min()')
+    n_sub = 0
+    for f in sorted(reach.values(), key=lambda x: x.path):
+        if f.r.get('derive'):
+            continue
+        for bb, i, st in f.stmts():
+            rv = st['rv']
+            if rv['k'] != 'bin' or rv['op'] not in ('Sub', 'SubWithOverflow') or 'k' in rv['b']:
+                continue
+            pb = op_place(rv['b'])
+            if pb is None or f.local_ty(pb.l) not in ('u64', 'usize', 'u32', 'u16'):
+                continue
+            sb = lib.slice_back(f, [rv['b']], through_calls=True, at=(bb, i))
+            fromle = [c for c in sb.calls if c.name in ('from_le_bytes', 'from_be_bytes')]
+            flds = {(o, x) for o, x in sb.fields if o and o.endswith(FILE_STRUCT_SUFFIX) and any(h in x for h in SIZE_HINT + ('offset',))}
+            if not fromle and not flds:
+                continue
+            n_sub += 1
+            ctx.evaluations += 1
+            src = ', '.join(sorted('%s.%s' % p for p in flds)) or 'from_le_bytes(bytes read)'
+            if any(c.name in ('min', 'clamp') for c in sb.calls):
+                ctx.ok('SUB-C22c', f, 'subtrahend (%s) clamped with min()' % src, line=st.get('l'))
+                continue
+            sa = lib.slice_back(f, [rv['a']], through_calls=True, at=(bb, i))
+            why = None
+            for cm, rel in lib.guards_holding_at(f, bb):
+                for x, y, r in ((cm.sa(), cm.sb(), rel), (cm.sb(), cm.sa(), lib.FLIP[rel])):
+                    b_side = bool(x.locals & sb.locals) or any(c in x.calls for c in fromle) or bool(flds & x.fields)
+                    a_side = bool((y.locals & sa.locals) - sb.locals) or bool((y.fields & sa.fields) - sb.fields)
+                    if b_side and a_side and r in ('<=', '<', '=='):
+                        why = 'b <= a established at line %s' % cm.line
+            if why:
+                ctx.ok('SUB-C22c', f, 'a - b with b from %s: %s' % (src, why), line=st.get('l'))
+            else:
+                ctx.bad('SUB-C22c', f, 'unsigned subtraction of a file-derived value (%s) that is not bounded by the minuend on this path: a crafted field underflows (panic in debug, '
+                        'wrapped offset and out-of-range slice in release)' % src, line=st.get('l'), sink='Sub', detail='unguarded-sub:' + (','.join(sorted(x for o, x in flds)) or 'from_le_bytes'))
+    ctx.floor('SUB-C22c', n_sub, 5, 'unsigned subtractions with a file-derived subtrahend')
